@@ -1364,10 +1364,16 @@ local function visitor_Call(context, node, argnodes, calleetype, calleesym, call
         table.remove(pseudoargtypes, 1)
         table.remove(pseudoargattrs, 1)
       end
-      if not mulargstype and #argnodes > #pseudoargattrs then
-        if not (#argnodes == #pseudoargattrs+1 and argnodes[#argnodes].is_Varargs) then
+      local nargs, lastargnode = #argnodes, argnodes[#argnodes]
+      local polyeval = context.state.inpolyeval
+      if lastargnode and lastargnode.is_Varargs and polyeval and polyeval.varargsnodes then
+        -- `...` of a polymorphic function unpacks to a known number of arguments
+        nargs, lastargnode = nargs - 1 + #polyeval.varargsnodes, nil
+      end
+      if not mulargstype and nargs > #pseudoargattrs then
+        if not (nargs == #pseudoargattrs+1 and lastargnode and lastargnode.is_Varargs) then
           node:raisef("in call of function '%s': expected at most %d arguments but got %d",
-            calleename, #pseudoargattrs, #argnodes)
+            calleename, #pseudoargattrs, nargs)
         end
       end
       local polyargs = {}
